@@ -43,6 +43,7 @@ type spec struct {
 	exit                                    string // "sig" | "free" | "never"
 	heldRun, heldStop, heldReload, heldSub  bool
 	heldPoll                                bool
+	errOnStop                               bool
 	neverReady                              bool
 }
 
@@ -156,6 +157,14 @@ func (s *scn) mkErr(cancel bool) supmock.RunResult {
 	return supmock.RunResult{Err: e, ID: id, Cancel: cancel}
 }
 
+// mkErrInit is mkErr(false) usable while the scenario is still being built.
+func (s *scn) mkErrInit(i int) supmock.RunResult {
+	if s.errs == nil {
+		s.errs = map[int]error{}
+	}
+	return s.mkErr(false)
+}
+
 func b2i(b bool) int {
 	if b {
 		return 1
@@ -218,6 +227,33 @@ func (s *scn) genSpecs() {
 		}
 	case "sdsender":
 		s.specs[s.r.Intn(n)].ssender = true
+	case "errs":
+		// several runnables return a real error while they are being stopped
+		s.specs = make([]spec, 2+s.r.Intn(3))
+		for i := range s.specs {
+			s.specs[i] = spec{exit: "free", stopBlocks: s.r.Bool(), errOnStop: true, stateable: s.r.Chance(1, 4)}
+		}
+	case "earlyshutdown":
+		// Shutdown() from another goroutine after Run() was entered and before anything is launched
+		s.specs = make([]spec, 1+s.r.Intn(3))
+		for i := range s.specs {
+			s.specs[i] = spec{exit: "sig", stopBlocks: true, stateable: s.r.Chance(1, 3)}
+		}
+	case "latesub":
+		// the runnable changes state before the monitor can subscribe, then returns to the recorded state
+		s.specs = make([]spec, 1+s.r.Intn(2))
+		for i := range s.specs {
+			s.specs[i] = spec{exit: "sig", stopBlocks: s.r.Bool()}
+		}
+		s.specs[0].stateable = true
+		s.specs[0].heldSub = true
+	case "subclose":
+		// a subscriber's context ends while a broadcast is in progress
+		s.specs = make([]spec, 1+s.r.Intn(2))
+		for i := range s.specs {
+			s.specs[i] = spec{exit: "sig", stopBlocks: s.r.Bool()}
+		}
+		s.specs[0].stateable = true
 	case "finalstate":
 		// a state monitor that lags behind its runnable when shutdown stores the final state
 		s.specs = make([]spec, 1+s.r.Intn(2))
@@ -266,6 +302,10 @@ func (s *scn) build() error {
 		c.Stateable, c.Reloadable, c.RSender, c.SSender = sp.stateable, sp.reloadable, sp.rsender, sp.ssender
 		c.StopBlocks, c.HeldRun, c.HeldStop, c.HeldReload, c.HeldSub = sp.stopBlocks, sp.heldRun, sp.heldStop, sp.heldReload, sp.heldSub
 		c.HeldPoll = sp.heldPoll
+		if sp.errOnStop {
+			rr := s.mkErrInit(i)
+			c.ErrOnStop = &rr
+		}
 		s.cores = append(s.cores, c)
 		rs = append(rs, supmock.Wrap(c))
 	}
@@ -299,7 +339,9 @@ func (s *scn) build() error {
 	s.sup = sup
 	s.pending = map[int]string{}
 	s.subs = map[int]*subSt{}
-	s.errs = map[int]error{}
+	if s.errs == nil {
+		s.errs = map[int]error{}
+	}
 	s.runDone = make(chan struct{})
 	s.readySet = make([]bool, len(s.specs))
 	s.stopReleased = make([]bool, len(s.specs))
@@ -680,6 +722,61 @@ func (s *scn) preludeFinalState() {
 	s.snap()
 }
 
+// preludeLateSub: the runnable leaves its initial state before the monitor obtains the state channel,
+// then goes back to the state startRunnable recorded.
+func (s *scn) preludeLateSub() {
+	c0 := s.cores[0]
+	s.rec.WaitFor("RunCall 0", 3*time.Second)
+	s.readySet[0] = true
+	c0.SetReady(true)
+	s.quiesce()
+	b := 1 + s.r.Intn(4)
+	c0.Emit(stateNames[b], b)
+	s.quiesce()
+	s.rec.Emit("SubRel 0")
+	c0.SubRelease <- struct{}{}
+	s.quiesce()
+	s.snap()
+	c0.Emit(stateNames[0], 0) // back to the recorded initial state
+	s.quiesce()
+	s.snap()
+}
+
+// preludeSubClose: two subscribers; the broadcasting monitor is parked after its first send; both
+// subscriptions are cancelled; the broadcast resumes.
+func (s *scn) preludeSubClose() {
+	c0 := s.cores[0]
+	s.rec.WaitFor("RunCall 0", 3*time.Second)
+	s.readySet[0] = true
+	c0.SetReady(true)
+	s.quiesce()
+	for k := 0; k < 2; k++ {
+		s.nextSub++
+		c := s.nextSub
+		ctx, cancel := context.WithCancel(context.Background())
+		s.rec.Emit("Subscribe %d", c)
+		ch := s.sup.SubscribeStateChanges(ctx)
+		s.subs[c] = &subSt{ch: ch, cancel: cancel}
+	}
+	s.quiesce()
+	park := s.ph.ParkOn("Sent state update to subscriber")
+	c0.Emit("Running", 2)
+	if !park.WaitReached(2 * time.Second) {
+		park.Release()
+		return
+	}
+	for c, sb := range s.subs {
+		if !sb.closed {
+			sb.closed = true
+			s.rec.Emit("SubCancel %d", c)
+			sb.cancel()
+		}
+	}
+	time.Sleep(3 * time.Millisecond)
+	park.Release()
+	s.quiesce()
+}
+
 func (s *scn) allCallersBack() bool {
 	s.mu.Lock()
 	defer s.mu.Unlock()
@@ -687,7 +784,19 @@ func (s *scn) allCallersBack() bool {
 }
 
 func (s *scn) run() {
-	s.startRun()
+	if s.family == "earlyshutdown" {
+		// park Run() on its second log line: it has been entered, nothing is launched yet
+		park := s.ph.ParkOn("Listening for signals")
+		s.startRun()
+		if park.WaitReached(2 * time.Second) {
+			s.shutdownTriggered = true
+			s.apiCall("Shutdown", s.sup.Shutdown)
+			s.rec.WaitQuiescent(2 * time.Second)
+		}
+		park.Release()
+	} else {
+		s.startRun()
+	}
 	// let Run() get going before the environment acts (a Shutdown() that overtakes Run()'s first
 	// statement would stop every registered runnable; that ordering is outside the model)
 	s.rec.WaitQuiescent(3 * time.Second)
@@ -696,6 +805,12 @@ func (s *scn) run() {
 	}
 	if s.family == "finalstate" {
 		s.preludeFinalState()
+	}
+	if s.family == "latesub" {
+		s.preludeLateSub()
+	}
+	if s.family == "subclose" {
+		s.preludeSubClose()
 	}
 	steps := 6 + s.r.Intn(18)
 	phase := "startup"
@@ -844,7 +959,7 @@ func main() {
 		child(*seed, *family)
 		return
 	}
-	fams := []string{"mixed", "startup", "timeout", "state", "reload", "sdsender", "big", "gatefail", "finalstate"}
+	fams := []string{"mixed", "startup", "timeout", "state", "reload", "sdsender", "big", "gatefail", "finalstate", "errs", "earlyshutdown", "latesub", "subclose"}
 	type job struct {
 		seed uint64
 		fam  string
